@@ -18,6 +18,16 @@ fn main() {
     let stats = arg(rest, "--stats").map(ToString::to_string);
     let code = match args.get(1).map(String::as_str) {
         Some("tui") => tuidrv::run(seed, n, arg(rest, "--family").unwrap_or("tui"), &out, stats.as_deref()),
+        Some("layout") => {
+            // one horizontal split, as ratatui's Table does for its columns: explores the termination of the
+            // layout solver for a given width and list of Min constraints (one process = one hash seed)
+            use ratatui::layout::{Constraint, Flex, Layout, Rect};
+            let width: u16 = arg(rest, "--width").and_then(|s| s.parse().ok()).unwrap_or(80);
+            let mins: Vec<Constraint> = arg(rest, "--mins").unwrap_or("").split(',').filter_map(|x| x.parse::<u16>().ok()).map(Constraint::Min).collect();
+            let r = Layout::horizontal(mins).flex(Flex::Start).spacing(1).split(Rect::new(0, 0, width, 1));
+            println!("{:?}", r.iter().map(|x| x.width).collect::<Vec<_>>());
+            0
+        }
         Some("cfg") => cfgdrv::run(seed, n, arg(rest, "--family").unwrap_or("layer"), &out, stats.as_deref()),
         _ => {
             eprintln!("usage: vt tui|cfg --seed S --n N --out FILE [--stats FILE]");
